@@ -25,10 +25,26 @@ SYM_CFG = [
 ]
 
 
+def apply_pins(ep, args):
+    for rx, en, vs in args.get('pins', []):
+        ep.pin(rx, en, vs)
+    for rx, strs in args.get('string_pins', []):
+        ep.pin_strings(rx, strs)
+    for rx, lens in args.get('len_pins', []):
+        ep.pin_len(rx, lens)
+    for rx, alts in args.get('opt_pins', []):
+        ep.pin_opt(rx, alts)
+    if args.get('import_callee'):
+        ep.import_callee = True
+    if args.get('module_import'):
+        ep.module_import = True
+    return ep
+
+
 def make_scenario(name, args):
     if name == 'block_expr':
         pol = dict(args['policy'])
-        ep = ExprPolicy(**pol)
+        ep = apply_pins(ExprPolicy(**pol), args)
         cfg = ConfigSpec(args.get('config', DEFAULT_CFG), prefix=args.get('prefix', 'test'), verbosity=args.get('verbosity', 'Information'))
         return BlockScenario(ep, cfg)
     raise KeyError(name)
@@ -52,7 +68,7 @@ OPERANDS_Q = dict(scenario='block_expr', args=dict(policy=expr_profile([OPS, MID
 OPERANDS_T = dict(scenario='block_expr', args=dict(policy=expr_profile([OPS, MID, LEAF_EFF], max_args=(2, 1, 0))), label='operations x operand shapes, depth 3 (full alphabet, effectful leaves)')
 CONTEXTS_Q = dict(scenario='block_expr', args=dict(policy=expr_profile([CTX, OPS, LEAF], max_args=(1, 1, 0), props=['substring', 'foo'])), label='expression contexts x operations, depth 3')
 ALL_D2 = dict(scenario='block_expr', args=dict(policy=expr_profile([TOP_ALL, LEAF_EFF, LEAF], max_args=(2, 0, 0))), label='all expression kinds, depth 2')
-SYMCFG_Q = dict(scenario='block_expr', args=dict(policy=expr_profile([OPS, LEAF], max_args=(1, 0, 0), props=['substring', 'concat', 'foo']), config=SYM_CFG), label='symbolic method table (3 entries, all fields symbolic) x operations, depth 2')
+SYMCFG_Q = dict(scenario='block_expr', args=dict(policy=expr_profile([OPS, LEAF], max_args=(1, 1, 0), names=['a', 'substring', 'concat'], props=['substring', 'concat', 'foo']), config=SYM_CFG), label='symbolic method table (3 entries, all fields symbolic) x operations, depth 2')
 
 for p in ('C02', 'C03', 'C06', 'C12', 'C15'):
     PLANS[p] = {'quick': [ALL_D2, OPERANDS_Q], 'thorough': [ALL_D2, OPERANDS_Q, CONTEXTS_Q, OPERANDS_T]}
@@ -81,7 +97,7 @@ _prev_make = make_scenario
 
 def make_scenario(name, args):
     if name == 'program':
-        sp = StmtPolicy(**args['policy'])
+        sp = apply_pins(StmtPolicy(**args['policy']), args)
         cfg = ConfigSpec(args.get('config', DEFAULT_CFG), prefix=args.get('prefix', 'test'), verbosity=args.get('verbosity', 'Information'))
         return ProgramScenario(sp, cfg, kinds=args.get('kinds', ('Script',)), prologue=args.get('prologue', True))
     return _prev_make(name, args)
@@ -112,3 +128,62 @@ SCOPE_Q = dict(scenario='program', args=dict(policy=stmt_profile([['Block', 'Dec
 for p in ('C06',):
     PLANS[p]['quick'] = PLANS[p]['quick'] + [SCOPE_Q]
     PLANS[p]['thorough'] = PLANS[p]['thorough'] + [SCOPE_Q]
+
+
+# operators individually enabled/disabled (symbolic flags) x operations with un-instrumented `+` operands
+FLAGS_CFG = [
+    dict(src='plusOperator', dst=None, operator=None, awc=False),
+    dict(src='tplOperator', dst=None, operator=None, awc=False),
+    dict(src='substring', dst='stringSubstring', operator=False, awc=False),
+]
+FLAGS_Q = dict(scenario='block_expr', args=dict(policy=expr_profile([OPS, ['Ident', 'Lit', 'Bin', 'Tpl'], LEAF], max_args=(1, 0, 0), props=['substring', 'foo'], bin_ops=['Add', 'Sub']), config=FLAGS_CFG),
+               label='plus/template operators individually enabled or disabled (symbolic flags) x operations x operands incl. un-instrumented sums, depth 3')
+for p in ('C02', 'C03', 'C05', 'C12', 'C15'):
+    PLANS[p]['quick'] = PLANS[p]['quick'] + [FLAGS_Q]
+    PLANS[p]['thorough'] = PLANS[p]['thorough'] + [FLAGS_Q]
+
+
+# X.prototype.<m>.<call|apply>(thisArg, args...) : callee chain pinned, method name and call/apply symbolic,
+# this-argument and arguments range over literals, identifiers, calls, arrays (nested, with spreads and holes)
+PROTO_PINS = [
+    (r'^E$', 'Expr', ['Call']),
+    (r'^E/Call\.callee/Expr$', 'Expr', ['Member']),
+    (r'^E/Call\.callee/Expr/Member\.obj$', 'Expr', ['Member']),
+    (r'^E/Call\.callee/Expr/Member\.obj/Member\.obj$', 'Expr', ['Member', 'Ident']),
+    (r'^E/Call\.callee/Expr/Member\.obj/Member\.obj/Member\.obj$', 'Expr', ['Ident']),
+    (r'^E/Call\.callee/Expr/Member(\.obj/Member)*\.prop$', 'MemberProp', ['Ident']),
+]
+PROTO_STRS = [
+    (r'^E/Call\.callee/Expr/Member\.prop/Ident\.sym$', ['call', 'apply']),
+    (r'^E/Call\.callee/Expr/Member\.obj/Member\.prop/Ident\.sym$', ['concat', 'substring', 'foo']),
+    (r'^E/Call\.callee/Expr/Member\.obj/Member\.obj/Member\.prop/Ident\.sym$', ['prototype', 'foo']),
+]
+PROTO_Q = dict(scenario='block_expr', args=dict(policy=expr_profile([['Call'], ['Ident', 'Lit', 'Call', 'Array'], ['Ident', 'Lit', 'Array', 'Call'], ['Ident', 'Lit']], max_args=(2, 2, 0, 0), names=['a', 'String']),
+                                                pins=PROTO_PINS, string_pins=PROTO_STRS, config=[dict(src='plusOperator', dst=None, operator=True, awc=False), dict(src='concat', dst='stringConcat', operator=False, awc=False), dict(src='substring', dst=None, operator=False, awc=False)]),
+               label='X.prototype.<m>.call|apply(this, arg): method and call/apply symbolic; this/arg in {literal, ident, call, array (nested, spreads, holes)}; 0-2 arguments')
+PROTO_T = dict(scenario='block_expr', args=dict(policy=expr_profile([['Call'], ['Ident', 'Lit', 'Call', 'Array', 'Bin'], ['Ident', 'Lit', 'Array', 'Call'], ['Ident', 'Lit']], max_args=(3, 3, 1, 0), names=['a', 'String']),
+                                                pins=PROTO_PINS, string_pins=PROTO_STRS, config=[dict(src='plusOperator', dst=None, operator=True, awc=False), dict(src='concat', dst='stringConcat', operator=False, awc=False), dict(src='substring', dst=None, operator=False, awc=False)]),
+               label='X.prototype.<m>.call|apply(this, args): as quick, 0-3 arguments, `+` operands')
+for p in ('C02', 'C03', 'C15', 'C12', 'C06'):
+    PLANS[p]['quick'] = PLANS[p]['quick'] + [PROTO_Q]
+    PLANS[p]['thorough'] = PLANS[p]['thorough'] + [PROTO_T]
+
+
+# dynamic import / call arguments
+CALLEE_Q = dict(scenario='block_expr', args=dict(policy=expr_profile([['Call', 'New'], ['Bin', 'Tpl', 'Ident', 'Call'], LEAF], max_args=(2, 2, 0), props=['substring', 'foo']), import_callee=True),
+                label='calls with callee in {expression, import} and `new`, arguments holding instrumentable operations')
+PLANS['C04']['quick'] = PLANS['C04']['quick'] + [CALLEE_Q, ALL_D2]
+PLANS['C04']['thorough'] = PLANS['C04']['thorough'] + [CALLEE_Q, ALL_D2, OPERANDS_Q]
+
+# reserved-prefix collision: identifiers may be named like an injected temporary
+COLLISION_Q = dict(scenario='program', args=dict(policy=stmt_profile([['Block', 'Decl:Fn'], ['Expr', 'Decl:Var', 'Decl:Fn'], ['Return']], [['Bin', 'Ident', 'Call'], ['Ident', 'Call'], ['Ident']], bin_ops=['Add'], names=['a', '__datadog_test_0'], params=(0, 1), block_lens=(1, 2), op_budget=2, all_present=True), kinds=('Script',)),
+                   label='blocks/functions whose identifiers (bindings, references, function names, parameters, call arguments) may be named __datadog_test_0, next to operations that need temporaries')
+PLANS['C06']['quick'] = PLANS['C06']['quick'] + [COLLISION_Q]
+PLANS['C06']['thorough'] = PLANS['C06']['thorough'] + [COLLISION_Q]
+
+# modules that start with an import declaration
+MODULE_Q = dict(scenario='program', args=dict(policy=stmt_profile([['Block', 'Decl:Fn', 'Expr'], ['Return', 'Expr']], [['Bin', 'Ident', 'Lit'], ['Ident']], bin_ops=['Add'], names=['a'], strs=['use strict', 'x'], quotes=["'"], directives=1, items=(1, 2), params=(0,), op_budget=1, all_present=True), kinds=('Module', 'Script'), module_import=True),
+                label='modules whose first item is an import declaration or a directive, followed by an instrumented block/function; scripts likewise')
+for p in ('C07', 'C12', 'C02'):
+    PLANS[p]['quick'] = PLANS[p]['quick'] + [MODULE_Q]
+    PLANS[p]['thorough'] = PLANS[p]['thorough'] + [MODULE_Q]
